@@ -22,6 +22,7 @@ CONSTANTS
   MaxRp = 1
   MaxAssoc = 2
   Slack = 0
+  Bound = 0
   ZonedPanics = FALSE
 INVARIANTS TypeOK
 PROPERTIES ExpireHappens ShutdownReclaims
